@@ -50,6 +50,18 @@ def build_unit(unit, force_lost=None):
             continue
         root = item_source(it)
         if k == "fn":
+            if it.get("assumed"):
+                # callee whose contract is PROVED IN ANOTHER UNIT: keep the real signature (extracted), attach that contract, drop the body.
+                # Verification is modular - callers see only the contract - so nothing is lost; recorded in the evidence as assumed-here.
+                try:
+                    raw2, line2 = extract.extract_fn(root, it)
+                    t2 = extract.strip_inner_attrs_and_comments(raw2)
+                    t2, _ = extract.apply_rewrites(t2, [(r[0], r[1], 0, 10 ** 6) for r in (it.get("rewrites") or [])], "fn " + it["name"])
+                    chunks.append((it.get("rename", it["name"]) + "<assumed>", [], extract.stub_fn(t2, it)))
+                    meta.setdefault("assumed_contracts", []).append({"fn": it.get("qual", it["name"]), "proved_in": it["assumed"]})
+                except Inconclusive as ex:
+                    meta.setdefault("lost_items", {})[it.get("rename", it["name"])] = str(ex)
+                continue
             try:
                 if it.get("rename", it["name"]) in force_lost:
                     raise Inconclusive(force_lost[it.get("rename", it["name"])])
